@@ -545,34 +545,24 @@ pub(crate) fn parse_const(c: &ItemConst) -> Result<RustItem, ParseError> {
 }
 
 fn parse_const_expr(e: &Expr) -> Result<RustConstExpr, ParseError> {
-    struct ExprLitVisitor(pub Option<Result<RustConstExpr, ParseError>>);
-    impl Visit<'_> for ExprLitVisitor {
-        fn visit_expr_lit(&mut self, el: &ExprLit) {
-            if self.0.is_some() {
-                // should we throw an error instead of silently ignoring a second literal?
-                // or would this create false positives?
-                return;
-            }
-            let check_literal_type = || {
-                Ok(match &el.lit {
-                    Lit::Int(lit_int) => {
-                        let int: i128 = lit_int
-                            .base10_parse()
-                            .map_err(|_| ParseError::RustConstTypeInvalid)?;
-                        RustConstExpr::Int(int)
-                    }
-                    _ => return Err(ParseError::RustConstTypeInvalid),
-                })
-            };
-
-            self.0.replace(check_literal_type());
+    match e {
+        // Only a plain integer literal can be shared: anything else (`-5`, `1 + 2`, `f(3)`,
+        // `3u8 as u32`, ..) would need evaluating, and picking out "the first literal" of such
+        // an expression silently generates the wrong value.
+        Expr::Lit(ExprLit {
+            lit: Lit::Int(lit_int),
+            ..
+        }) => {
+            let int: i128 = lit_int
+                .base10_parse()
+                .map_err(|_| ParseError::RustConstTypeInvalid)?;
+            Ok(RustConstExpr::Int(int))
         }
+        Expr::Paren(paren) => parse_const_expr(&paren.expr),
+        Expr::Group(group) => parse_const_expr(&group.expr),
+        Expr::Lit(_) => Err(ParseError::RustConstTypeInvalid),
+        _ => Err(ParseError::RustConstExprInvalid),
     }
-    let mut expr_visitor = ExprLitVisitor(None);
-    syn::visit::visit_expr(&mut expr_visitor, e);
-    expr_visitor
-        .0
-        .unwrap_or(Err(ParseError::RustConstTypeInvalid))
 }
 
 // Helpers
